@@ -1,9 +1,52 @@
 use encoding_rs::Encoding;
 use xhtmlchardet::detect;
 
+/// If the data starts with an XML declaration (possibly after a byte order
+/// mark), the value of its `encoding` pseudo-attribute.
+///
+/// The declaration consists of ASCII characters only; in the 16 and 32 bit
+/// encodings the other bytes of each character are zero, and a byte order
+/// mark has no ASCII bytes, so it is enough to look at the ASCII bytes.
+fn xml_declaration(data: &[u8]) -> Option<String> {
+    let mut ascii = String::new();
+    for &b in data.iter().take(1024) {
+        if b == 0 || b >= 0x80 {
+            continue;
+        }
+        ascii.push(b as char);
+        if b == b'>' {
+            break;
+        }
+    }
+    let rest = ascii.strip_prefix("<?xml")?.strip_suffix("?>")?;
+    if !rest.starts_with(|c: char| c.is_ascii_whitespace()) {
+        return None;
+    }
+    // the pseudo-attributes: name, optional white space, '=', optional white
+    // space, quoted value
+    let mut rest = rest.trim_start();
+    while !rest.is_empty() {
+        let (name, after) = rest.split_once('=')?;
+        let after = after.trim_start();
+        let quote = after.chars().next().filter(|c| *c == '"' || *c == '\'')?;
+        let (value, after) = after[1..].split_once(quote)?;
+        if name.trim_end() == "encoding" {
+            return Some(value.to_string());
+        }
+        rest = after.trim_start();
+    }
+    None
+}
+
 pub fn encoding(data: &[u8], hint: Option<String>) -> Option<&'static Encoding> {
-    let mut cursor = std::io::Cursor::new(data);
-    let charsets = detect(&mut cursor, hint).ok()?;
+    // Only the XML declaration can name the encoding. The detector searches
+    // everything it is given for `encoding=` or `charset=`, so it only gets to
+    // see enough to recognize a byte order mark; the encoding the declaration
+    // names (possibly with white space around the `=`) is passed as the hint.
+    let declared = xml_declaration(data);
+    let head = &data[..data.len().min(5)];
+    let mut cursor = std::io::Cursor::new(head);
+    let charsets = detect(&mut cursor, declared.or(hint)).ok()?;
     // no encoding detected
     let label = if charsets.is_empty() {
         "UTF-8"
